@@ -8,9 +8,11 @@ Line protocol for the server session model (domain `sess`).
   sess open <conn> <ip>                                          → ok
   sess close <conn>                                              → <summary>
   sess expire <sid>                                              → <summary>
+  sess preq <same arguments as req>    (pipelined: sent without waiting)     → st <status> cs <cseq|-> | noconn
+  sess sync                                                                    → <summary>
   sess rfc <state> <method>                                      → <allowedStrict> <allowed> <next state>   (Spec/Rfc2326.lean)
   sess req <conn> <method> <cseq|-> <star 0|1> <sid n|w|k> <path> <track k|x> <transports|-> <ct.sdp.n> <hstatus> <herr 0|1>
-        → st <status> cs <cseq|-> sh <sid:timeout|-> ch <chan|-> cl <0|1> <summary>     (or `noconn <summary>`)
+        → st <status> cs <cseq|-> sh <sid:timeout|-> ch <chan|-> pb <Public methods|-> cl <0|1> <summary>     (or `noconn <summary>`)
 
   handlers mask bits: 1 describe, 2 announce, 4 setup, 8 play, 16 record, 32 pause, 64 getParameter, 128 setParameter
   transports: comma list of <u|m|t>.<secure>.<mode 0|1|2>.<ports 0|1>.<il 0|1|2>.<ilA>
@@ -48,6 +50,11 @@ def parseState : String → Option SState
   | "initial" => some .initial | "prePlay" => some .prePlay | "play" => some .play
   | "preRecord" => some .preRecord | "record" => some .record | _ => none
 
+def methodName : Method → String
+  | .options => "OPTIONS" | .describe => "DESCRIBE" | .announce => "ANNOUNCE" | .setup => "SETUP"
+  | .play => "PLAY" | .record => "RECORD" | .pause => "PAUSE" | .teardown => "TEARDOWN"
+  | .getParameter => "GET_PARAMETER" | .setParameter => "SET_PARAMETER"
+
 def protoName : Option Proto → String
   | none => "-" | some .udp => "u" | some .mcast => "m" | some .tcp => "t"
 
@@ -83,6 +90,10 @@ def parseReq (a : List String) : Option (Nat × Request) :=
       | _, _ => none
     | _, _, _, _, _, _, _ => none
   | _ => none
+
+def pubStr : Option (List Method) → String
+  | none => "-"
+  | some ms => ",".intercalate (ms.map methodName)
 
 def mk : IO Handler := do
   let cfgR ← IO.mkRef ({} : Config)
@@ -122,6 +133,17 @@ def mk : IO Handler := do
       match parseState stn, parseMethod m with
       | some s, some m => return s!"{b2s (allowedStrict s m)} {b2s (allowed s m)} {stateName (next s m)}"
       | _, _ => return "bad-op"
+    | ["sync"] => return summary (← st.get)
+    | "preq" :: rest =>
+      -- a pipelined request: same semantics, only status and CSeq are observable per request
+      match parseReq rest with
+      | some (c, r) =>
+        let (s, o) := stepEv (← cfgR.get) (← st.get) (.req c r)
+        st.set s
+        match o with
+        | none => return "noconn"
+        | some res => return s!"st {res.status} cs {optNat res.cseq}"
+      | none => return "bad-op"
     | "req" :: rest =>
       match parseReq rest with
       | some (c, r) =>
@@ -134,7 +156,7 @@ def mk : IO Handler := do
           let sh := match res.sessHdr with
             | none => "-"
             | some id => s!"{id}:{Rtsp.Sess.Timer.advertised idle}"
-          return s!"st {res.status} cs {optNat res.cseq} sh {sh} ch {optNat res.chan} cl {b2s (res.err == .fail)} {summary s}"
+          return s!"st {res.status} cs {optNat res.cseq} sh {sh} ch {optNat res.chan} pb {pubStr res.pub} cl {b2s (res.err == .fail)} {summary s}"
       | none => return "bad-op"
     | _ => return "bad-op"
 
